@@ -190,7 +190,7 @@ func observe(root *plan.Node, payload string, deny map[string]bool, labels []str
 
 func main() {
 	if len(os.Args) < 2 {
-		fmt.Fprintln(os.Stderr, "usage: c02 gen -seed S -n N -out F [-auth 1] [-depth D] [-paths 1 [-overlap 1] [-stats F]]")
+		fmt.Fprintln(os.Stderr, "usage: c02 gen -seed S -n N -out F [-auth 1] [-depth D] [-paths 1 [-overlap 1] [-stats F]] [-tn 1 [-tstats F]]")
 		os.Exit(2)
 	}
 	a := common.Args(os.Args[2:])
@@ -208,7 +208,16 @@ func main() {
 			g.Overlap = common.ArgInt(a, "overlap", 0) == 1
 			g.Stats = &plan.PathStats{}
 		}
+		if common.ArgInt(a, "tn", 0) == 1 {
+			// (TypeName, PossibleTypes) shapes x __typename data kinds, String{IsTypeName:true} leaves (harness/plan/typeshapes.go)
+			g.TypeShapes = true
+			g.TStats = &plan.TypeStats{}
+		}
 		defer func() {
+			if g.TStats != nil && a["tstats"] != "" {
+				b, _ := json.Marshal(g.TStats)
+				_ = os.WriteFile(a["tstats"], b, 0o644)
+			}
 			if g.Stats != nil && a["stats"] != "" {
 				b, _ := json.Marshal(g.Stats)
 				_ = os.WriteFile(a["stats"], b, 0o644)
